@@ -40,6 +40,7 @@ type Result struct {
 	TraceHash  uint64
 	Stats      simrt.Stats
 	Fired      map[string]int64
+	Probes     map[string]int64
 	Reads      int64
 	Writes     int64
 	Values     int64 // values decoded or encoded
@@ -66,7 +67,7 @@ func hasInject(script []ReadStep) bool {
 
 // Run executes one scenario with all its oracles.
 func Run(s *Scen) *Result {
-	res := &Result{Fired: map[string]int64{}}
+	res := &Result{Fired: map[string]int64{}, Probes: map[string]int64{}}
 	switch s.Kind {
 	case "dec":
 		runDec(s, res)
@@ -315,8 +316,24 @@ func callStd(c *FnCall) (o fnOut) {
 			o.Val, o.Err = Render(t, false), errRender(err)
 		case FMarshal, FMarshalEscaped, FMarshalIndent:
 			stdV, _, ok := buildValue(c.Text, c.Target, c.TypeSeed)
-			if !ok {
+			if !ok || ((c.Target == TRedirect || c.Target == TTrust) && c.FailAt > 0) {
+				// a failing Redirect/TrustMarshaler has no standard-library counterpart for its error text
 				o.Skipped = true
+				return
+			}
+			if tm, isTrust := stdV.(trustMarker); isTrust {
+				// model of the TrustMarshaler contract: its bytes reach the output verbatim
+				model := trustModel(tm.shape, tm.text)
+				if c.Fn == FMarshalIndent {
+					var buf bytes.Buffer
+					err := sj.Indent(&buf, []byte(model), c.Prefix, c.Indent)
+					o.Out, o.Err = buf.String(), errRender(err)
+					if err != nil {
+						o.Out = ""
+					}
+					return
+				}
+				o.Out = model
 				return
 			}
 			*flakyCtl = FlakyCtl{FailAt: c.FailAt, Panic: c.Panic}
@@ -480,6 +497,13 @@ func runFn(s *Scen, res *Result) {
 		res.Log = append(res.Log, fmt.Sprintf("%s(%s as %s) -> out=%s val=%s err=%q keys=%q", name, trunc(c.Text), targetNames[c.Target], trunc([]byte(got.Out)), trunc([]byte(got.Val)), got.Err, got.Keys))
 		if got.Err == "" && c.Fn != FValid {
 			res.Values++
+			if c.Fn <= FMarshalIndent {
+				kind := "decoded_ok_as "
+				if c.Fn >= FMarshal {
+					kind = "encoded_ok_from "
+				}
+				res.Probes[kind+targetNames[c.Target]]++
+			}
 		}
 		if strings.HasPrefix(got.Err, "panic:") && c.Panic {
 			res.Fired["callback_panicked"]++
@@ -556,7 +580,7 @@ func runFn(s *Scen, res *Result) {
 				}
 				res.Fired["keys_checked"]++
 			} else if len(got.Keys) > 0 && (root == nil || root.K != jr.Obj) {
-				res.Fired["stale_lastKeys_observable"]++
+				res.Probes["stale_lastKeys_observable"]++
 			}
 		}
 		// (e) Compact / Indent / HTMLEscape / escape switch change spelling only
@@ -580,7 +604,11 @@ func runFn(s *Scen, res *Result) {
 				}
 				w.EndCall(false, 0)
 				if ok && err == nil && c.FailAt == 0 {
-					if eq, ok2 := jrEqualTexts([]byte(got.Out), other); !ok2 || !eq {
+					if eq, ok2 := jrEqualTexts([]byte(got.Out), other); (!ok2 || !eq) && sameDecoded([]byte(got.Out), other, c.Target, c.TypeSeed) {
+						// a string field tagged ",string" holds the JSON *encoding* of its value, HTML escapes
+						// included (encoding/json does the same): the texts differ, the decoded Go values do not
+						res.Probes["escape_switch_quoted_string_field"]++
+					} else if !ok2 || !eq {
 						res.viol("reread", "codec|fn|MarshalEscaped|escape-switch", detail("the HTML-escape switch changed the value", trunc([]byte(got.Out)), trunc(other)), int(c.ID))
 					}
 				}
@@ -593,6 +621,18 @@ func runFn(s *Scen, res *Result) {
 	}
 	res.Stats = w.Stats
 	res.TraceHash = w.TraceHash()
+}
+
+// sameDecoded reports whether two encodings of a typed target decode (with the
+// standard library) to the same Go value.
+func sameDecoded(a, b []byte, target int, typeSeed uint64) bool {
+	if !isTypedTarget(target) {
+		return false
+	}
+	ta, tb := NewTarget(target, typeSeed), NewTarget(target, typeSeed)
+	*flakyCtl = FlakyCtl{}
+	ea, eb := sj.Unmarshal(a, ta), sj.Unmarshal(b, tb)
+	return ea == nil && eb == nil && Render(ta, false) == Render(tb, false)
 }
 
 // sameNumberLiterals reports whether two texts contain the same number literals in document order.
@@ -836,6 +876,9 @@ func RunWorker(p sim.Params) *sim.Summary {
 		sum.Probes["pool_reuse_after_failed_call"] += r.Stats.PoolReuseAfterFail
 		sum.Probes["map_order_nontrivial"] += r.Stats.KeysNontrivial
 		sum.Probes["values_decoded_or_encoded"] += r.Values
+		for k, v := range r.Probes {
+			sum.Probes[k] += v
+		}
 		for _, c := range s.FnCalls {
 			sum.PerFn[fNames[c.Fn]]++
 		}
